@@ -67,7 +67,10 @@ Inductive c13case :=
 | CSha (x : bytes) (expect : bytes)         (* the SHA-256 used in the Examples of props/C13.v *)
 (* a key built through a SUBCLASS that selects digest dg (generate_key / import_key / constructor /
    registry with the subclass): its thumbprint is the model's for the class's fields and dg *)
-| CSubKey (o : oracle) (cls : N) (d : dict) (dg : str) (expect : res str).
+| CSubKey (o : oracle) (cls : N) (d : dict) (dg : str) (expect : res str)
+(* <Class>.generate_key(.., parameters, private, auto_kid) seen from the native key it produced:
+   the resulting dict_value (a kid given in parameters is kept, else auto_kid assigns the thumbprint) *)
+| CGenerate (o : oracle) (nk : native) (params : option dict) (auto_kid : bool) (expect : res dict).
 
 Definition keyset_run (o : oracle) (ks : list (N * bool * dict)) (private : option bool) (params : dict)
   : res (list dict * list dict) :=
@@ -104,6 +107,8 @@ Definition c13_check (c : c13case) : bool :=
       match spec_run kty K with Some s => beqb s canon | None => false end
   | CSha x e => beqb (sha256 x) e
   | CSubKey o cls d dg e => res_eqb beqb (thumbprint (oracle_hash o) d (key_fields (cls_of cls)) dg) e
+  | CGenerate o nk params auto e =>
+      res_eqb dict_eqb (do k <- generate (oracle_hash o) nk params auto; Ok (ko_dict k)) e
   end.
 
 (* what the model computed, for the failing cases only: a short prefix of its
@@ -137,4 +142,5 @@ Definition c13_show (c : c13case) : c13out :=
   | CSpec kty K _ => match spec_run kty K with Some s => Ok (clip s) | None => Err EOracleMiss end
   | CSha x _ => Ok (clip (sha256 x))
   | CSubKey o cls d dg _ => show_str (thumbprint (oracle_hash o) d (key_fields (cls_of cls)) dg)
+  | CGenerate o nk params auto _ => show_dict (do k <- generate (oracle_hash o) nk params auto; Ok (ko_dict k))
   end.
